@@ -70,6 +70,13 @@ def _worker(args):
                 ob["cex"]["inputs"] = run.jsonable(ob["cex"]["inputs"])
             elif ob["status"] == "failed" and ob["cex"]:
                 ob["cex"]["replay_status"] = "no-inputs"
+            elif ob["status"] == "unknown" and ob.get("candidate") is not None:
+                st, v = run.replay_inputs(h, ob["candidate"])
+                if st in ("failed", "error"):
+                    ob["status"] = "failed"
+                    ob["cex"] = {"inputs": run.jsonable(ob["candidate"]), "model": "solver: unknown (%s); candidate input from the quantifier-free part of the VC" % ob["detail"][:200],
+                                 "path": None, "detail": ob["detail"], "replay_status": st, "replay_failed": [f[0] for f in v.failed], "replay_error": getattr(v, "error", None)}
+                ob["candidate"] = None
     except BaseException:
         out["crash"] = traceback.format_exc()
     return out
